@@ -295,7 +295,7 @@ class Interp:
         key = (base, name)
         if key in st.ext:
             return st.ext[key]
-        if base[0] == "cond" and base not in self.types:
+        if base[0] == "cond" and (base not in self.types or self._concrete_leaves(base)):
             return mk_cond(base[1], self.get_attr(st, base[2], name, node, tree), self.get_attr(st, base[3], name, node, tree))
         if base[0] == "class":
             cls = self.facts.cls(base[1])
@@ -346,6 +346,12 @@ class Interp:
                     return self.apply(st, v[1], [base], {}, node, tree)
                 return v if v is not None else ("classattr", ca[0].qualname, name)
         return ("attr", base, name)
+
+    def _concrete_leaves(self, t) -> bool:
+        """Every alternative of a decision term is a heap object or a constant (so attribute access can be decided per leaf)."""
+        if t[0] == "cond":
+            return self._concrete_leaves(t[2]) and self._concrete_leaves(t[3])
+        return t[0] in ("ref", "const")
 
     def _eval_class_attr(self, cls: ClassInfo, name: str, node: ast.expr):
         """Value of a class-level attribute when it is a plain table (constants, tuples/lists/dicts of constants and of
@@ -945,6 +951,11 @@ class Interp:
             return ("call", "open", tuple(args), tuple(sorted(kwargs.items())))
         if name == "next":
             tree.append(("extcall", "next", tuple(args), line))
+            # ``next((e for x in xs if c), default)``: the first element of a filtered scan, else the default
+            o = self.obj(args[0]) if args else None
+            if isinstance(o, HList) and len(o.segs) == 1 and o.segs[0][0] == "loop" and len(o.segs[0]) > 2 \
+                    and len(o.segs[0][-1]) == 1 and o.segs[0][-1][0][0] == "e" and self.loops.get(o.segs[0][1], {}).get("kind") == "comp":
+                return ("firstof", o.segs[0][1], o.segs[0][-1][0][1], args[1] if len(args) > 1 else ("raises", "StopIteration"))
         return ("call", name, tuple(args), tuple(sorted(kwargs.items())))
 
     def _dict_mutated(self, ref, tree) -> bool:
